@@ -15,6 +15,7 @@
 package c04
 
 import (
+	"encoding/json"
 	"fmt"
 	"math/rand"
 	"os"
@@ -99,8 +100,14 @@ func genCase(rng *rand.Rand, i int, quick bool) *tcase {
 			maxRows = 60
 		}
 		for k := 0; k < nT; k++ {
-			format := []string{"csv", "csv", "json"}[rng.Intn(3)]
-			g.tables = append(g.tables, genWide(rng, k, format, 2+rng.Intn(maxRows), k == 0 || rng.Intn(3) == 0))
+			format := []string{"csv", "csv", "json", "parquet"}[pickW(rng, 40, 0, 30, 30)]
+			if k == 0 {
+				format = []string{"csv", "json"}[rng.Intn(2)] // the time-field table
+			}
+			g.tables = append(g.tables, genWide(rng, k, format, 2+rng.Intn(maxRows), k == 0 || (format != "parquet" && rng.Intn(3) == 0)))
+			if format == "parquet" {
+				g.feat["parquet"] = true
+			}
 		}
 		var out []qcol
 		switch shape {
@@ -162,6 +169,9 @@ func genCase(rng *rand.Rand, i int, quick bool) *tcase {
 	}
 	if tc.retr {
 		tc.mode = []string{"stream_native", "batch_table"}[rng.Intn(2)]
+	} else if strings.Contains(tc.sql, "array_agg(") {
+		// the CSV formatter panics on lists with and without the optimizer (C07's subject)
+		tc.mode = []string{"json", "stream_native", "batch_table"}[rng.Intn(3)]
 	} else {
 		tc.mode = []string{"json", "csv", "stream_native", "batch_table"}[rng.Intn(4)]
 	}
@@ -169,6 +179,7 @@ func genCase(rng *rand.Rand, i int, quick bool) *tcase {
 }
 
 func Run(c *core.Ctx) core.FinishOpts {
+	applyReplay(c)
 	nCases := c.Pick(500, 12000)
 	selftest := os.Getenv("VERIF_SELFTEST") == "1"
 	runner := cli.NewRunner(c.BinDir, c.Scratch)
@@ -249,6 +260,10 @@ func one(c *core.Ctx, runner *cli.Runner, tc *tcase, corrupt bool, rejected, jud
 		}
 		site, msg := r.PanicSite()
 		key := "panic-" + which + "-only:" + site
+		if strings.HasSuffix(site, "variablesUsed") && !(strings.Contains(tc.sql, " IN (") || strings.Contains(tc.sql, "COALESCE(")) {
+			// the listed finding is about IN lists / COALESCE inside a filter above a join
+			key += "/without-in-or-coalesce"
+		}
 		if which == "optimized" && tc.dupCSV && strings.HasPrefix(site, "datasources/csv/execution.go") {
 			key = kDupHeader
 		}
@@ -381,3 +396,28 @@ func firstLine(s string) string {
 }
 
 var _ = time.Second
+
+// applyReplay makes `--replay <file>` re-execute exactly the recorded case: seed, tier and case id
+// are taken from the replay file (case ids are a function of (seed, tier, index)).
+func applyReplay(c *core.Ctx) {
+	if c.Replay == "" {
+		return
+	}
+	data, err := os.ReadFile(c.Replay)
+	if err != nil {
+		fmt.Fprintln(os.Stderr, "cannot read replay file:", err)
+		return
+	}
+	var r struct {
+		Seed int64  `json:"seed"`
+		Tier string `json:"tier"`
+		Case struct {
+			ID string `json:"id"`
+		} `json:"case"`
+	}
+	if err := json.Unmarshal(data, &r); err != nil || r.Case.ID == "" {
+		fmt.Fprintln(os.Stderr, "replay file has no case id")
+		return
+	}
+	c.Seed, c.Tier, c.Only = r.Seed, r.Tier, r.Case.ID
+}
